@@ -13,7 +13,8 @@ Spec == Init /\ [][Next]_l
 
 MapOf(ps) == [k \in {ps[i][1] : i \in 1..Len(ps)} |-> LET i == CHOOSE j \in 1..Len(ps) : ps[j][1] = k IN ps[i][2]]
 Cur == Recs[l]
-Has == l <= N
+Has == l <= N /\ Recs[l].ev = "Map"
+IsSeq == l <= N /\ Recs[l].ev = "Seq"
 ReqOf(i) == i - 51            \* vec[1] is the request -50
 
 \* (LET-bound map and supported inputs are computed once per record and formula)
@@ -38,6 +39,13 @@ C12_ExactAndExtremes == Has =>
         /\ (r \in ks => Cur.vec[i] = m[r])
         /\ (r <= lo => Cur.vec[i] = m[lo])
         /\ (r >= hi => Cur.vec[i] = m[hi])
+\* sequences of requests: whatever value the fan shows when a request arrives (what the previous request left, or what
+\* somebody else wrote - possibly a number that is also an input or an output of the map), it ends up with the output
+\* of a nearest supported input of the NEW request
+C12_SequenceReceives == IsSeq =>
+  LET m == MapOf(Cur.map)
+      ks == DistinctKeys(m)
+  IN  \A i \in 1..Len(Cur.reqs) : Cur.regs[i] \in WriteSetForK(m, ks, Cur.reqs[i])
 \* conformance with the tie-breaking of the model of the code (larger neighbour)
 C12_ConformsCoded == Has =>
   LET ks == DistinctKeys(MapOf(Cur.map))
